@@ -5,8 +5,16 @@ From AM Require Import Rust.Ast Rust.Eval Gen.Entry Ref.ReloadId.
 Import ListNotations.
 Open Scope string_scope.
 
+(* the associated constant ReloadId::NEVER as printed is `Self(0)`; the interpreter is given the
+   same constant with `Self` spelled out *)
+Lemma never_is_zero : fn_params ReloadId_NEVER = [] /\ fn_body ReloadId_NEVER = [ECall (EPath ["Self"]) [ELit (LInt 0%N)]].
+Proof. vm_compute. split; reflexivity. Qed.
+Definition never_fn : fn_def :=
+  {| fn_name := "ReloadId::NEVER"; fn_params := []; fn_body := [ECall (EPath ["ReloadId"]) [ELit (LInt 0%N)]] |}.
+
 Definition fns : list (string * fn_def) :=
-  [("ReloadId::update", ReloadId_update);
+  [("ReloadId::NEVER", never_fn);
+   ("ReloadId::update", ReloadId_update);
    ("AtomicReloadId::update", AtomicReloadId_update);
    ("AtomicReloadId::fetch_max", AtomicReloadId_fetch_max);
    ("AtomicReloadId::increment", AtomicReloadId_increment);
@@ -124,7 +132,7 @@ Fixpoint atomic_calls (fuel : nat) (e : expr) : list string :=
 Definition atomic_calls_of (g : fn_def) : list string := flat_map (atomic_calls 20) (fn_body g).
 
 Lemma one_atomic_access_each :
-  map (fun '(_, g) => atomic_calls_of g) (tl fns)
+  map (fun '(_, g) => atomic_calls_of g) (tl (tl fns))
   = [["fetch_max"]; ["fetch_max"]; ["fetch_add"]; ["load"]; ["store"]; ["swap"]].
 Proof. vm_compute. reflexivity. Qed.
 
